@@ -85,6 +85,9 @@ def bincount(x, weights=None, minlength=0, split_every=None):
         weights = asarray(weights)
         if weights.chunks != x.chunks:
             raise ValueError("Chunks of input array x and weights must match.")
+        # x's blocks are paired with the weights' blocks one to one: pin both
+        # layouts, so a rewrite of either onto other chunks cannot unpair them
+        x, weights = x.freeze_chunks(), weights.freeze_chunks()
 
     if weights is not None:
         meta = np.bincount([1], weights=np.array([1], dtype=weights.dtype))
